@@ -16,7 +16,16 @@ def obligations(ctx, cfg):
             StepExpire(ctx, no, 2, 0, 'lease', 'C03.c-expire'),
             # the lease of a delivery whose consumer went away before the answer: still exactly one place per message
             ReceiveDropped(ctx, 'PullMessages', id_='C03.d-pull-consumer-gone'),
-            SubscriptionActorHistory(ctx, 'C03.e-history-subscription-actor')]
+            SubscriptionActorHistory(ctx, 'C03.e-history-subscription-actor')] + _lease_extension(ctx)
+
+
+def _lease_extension(ctx):
+    # a lease extended by ModifyAckDeadline lasts as long as was asked for (capped at 600 s): a shorter one hands the
+    # message to another consumer while the first still holds it
+    from props.C05 import C05a, ParseModifications
+    a, b = C05a(ctx), ParseModifications(ctx, 2)
+    a.id, b.id = 'C03.f-extension-duration', 'C03.f-parse-modifications'
+    return [a, b]
 
 
 def kani_harnesses(cfg):
